@@ -39,6 +39,7 @@ fn check(id: &str, tier: Tier) -> i32 {
         "C16" => props::c16::check(tier),
         "C17" => props::c17::check(tier),
         "C18" => props::c18::check(tier),
+        "C19" => props::c19::check(tier),
         "C20" => props::c20::check(tier),
         _ => {
             eprintln!("unknown property {}", id);
@@ -67,6 +68,7 @@ fn replay(id: &str, f: &Path) -> i32 {
         "C16" => props::c16::replay(f),
         "C17" => props::c17::replay(f),
         "C18" => props::c18::replay(f),
+        "C19" => props::c19::replay(f),
         "C20" => props::c20::replay(f),
         _ => 2,
     }
